@@ -74,9 +74,24 @@ def _sigma(ctx: Any, t: tuple, m: int, valprof: str) -> dict:
 
 
 def h_judge(ctx: Any, n: int, m: int, impl: str, kind: str, prof: str, valprof: str, history: bool = False, twin: bool = False) -> None:
-    p = gens.gen(ctx, n, _prof(prof))
+    if prof == 'stacked':
+        # two pending substitutions stacked on one constrained metavariable (same or different variables, both kinds),
+        # plugs of up to n nodes
+        from proof_generation import pattern as P
+
+        cfgs = ((0, 0, 0, 0), (1, 0, 0, 0), (0, 1, 0, 0), (0, 0, 1, 0), (0, 0, 0, 1))
+        cfg = cfgs[ctx.choose(len(cfgs), 'constraint')]
+        p = P.MetaVar(0, tuple(P.EVar(ctx.int('ce')) for _ in range(cfg[0])), tuple(P.SVar(ctx.int('cs')) for _ in range(cfg[1])), tuple(P.SVar(ctx.int('cp')) for _ in range(cfg[2])), tuple(P.SVar(ctx.int('cn')) for _ in range(cfg[3])))
+        for _ in range(2):
+            plug = gens.gen_upto(ctx, n, _prof('val_full'))
+            if ctx.choose(2, 'substitution kind') == 0:
+                p = P.ESubst(p, P.EVar(ctx.int('ve')), plug)
+            else:
+                p = P.SSubst(p, P.SVar(ctx.int('vs')), plug)
+    else:
+        p = gens.gen(ctx, n, _prof(prof))
     t = O.expand(p)
-    ctx.assume(O.has_meta(t))
+    ctx.assume(O.has_meta(t) and O.doc_wf_subst(t))
     v = ctx.int('v')
     if history and impl == 'py':
         # a judgement must not depend on earlier ones: the sibling patterns are judged first (same variable, and its neighbour)
@@ -158,6 +173,8 @@ def levels(tier: str) -> list[dict]:
             L.append(dict(label=f'rs/{kind}/full/n={n},val<={2 if q else 3}', module=M, fn='h_judge', kwargs=dict(n=n, m=2 if q else 3, impl='rs', kind=kind, prof='meta_full', valprof='val_full'), budget_s=bud, required=n <= 3, twin=False))
         if kind in ('positive', 'negative'):
             L.append(dict(label=f'rs/{kind}/full/n=3,val<=3', module=M, fn='h_judge', kwargs=dict(n=3, m=3, impl='rs', kind=kind, prof='meta_full', valprof='val_full'), budget_s=bud, required=True, twin=False))
+    for kind, impl in (('e_fresh', 'py'), ('e_fresh', 'rs'), ('s_fresh', 'rs'), ('positive', 'rs'), ('negative', 'rs')):
+        L.append(dict(label=f'{impl}/{kind}/two-stacked-substitutions/plugs<={2 if q else 3},val<=1', module=M, fn='h_judge', kwargs=dict(n=2 if q else 3, m=1, impl=impl, kind=kind, prof='stacked', valprof='val_full'), budget_s=bud, required=q, twin=False))
     for n in ([1, 2, 3] if q else [1, 2, 3, 4]):
         L.append(dict(label=f'py/e_fresh/full/n={n},val<={2 if q else 3}', module=M, fn='h_judge', kwargs=dict(n=n, m=2 if q else 3, impl='py', kind='e_fresh', prof='meta_full', valprof='val_full'), budget_s=bud, required=n <= 3, twin=False))
     for n in ([3, 4] if q else [3, 4, 5]):
